@@ -168,7 +168,8 @@ impl DerivedTS {
                     type WithoutGenerics = #generics;
                     type OptionInnerType = Self;
                     fn name() -> String { stringify!(#generics).to_owned() }
-                    fn inline() -> String { panic!("{} cannot be inlined", #name) }
+                    // `#[ts(inline)]` on a field whose type is the bare parameter: the parameter itself
+                    fn inline() -> String { stringify!(#generics).to_owned() }
                     fn inline_flattened() -> String { stringify!(#generics).to_owned() }
                     fn decl() -> String { panic!("{} cannot be declared", #name) }
                     fn decl_concrete() -> String { panic!("{} cannot be declared", #name) }
